@@ -173,7 +173,7 @@ theorem truthy_sig {v : PyVal} (hok : AttrOK .signature v) (ht : truthy v = true
 
 /-- What a successful first part of `_marshal` produced. -/
 theorem marshalBody_ok {β : Type} (T : Tables) (C : BodyCodec β) (p : Pre β) (hp : PreOK p)
-    (oob : Option (List Int)) (binBody : Bytes) (attrs : Attr → PyVal) (table : List (Attr × Nat × Bool))
+    (oob : Option (List PyVal)) (binBody : Bytes) (attrs : Attr → PyVal) (table : List (Attr × Nat × Bool))
     (h : marshalBody T C p oob = .ok (binBody, attrs, table)) :
     (∀ a, AttrOK a (attrs a)) ∧ (∀ a, a ≠ .unixFds → attrs a = p.attrs a) ∧
     table = T.entries p.cls (!isNone (attrs .unixFds)) ∧
